@@ -392,6 +392,7 @@ type histStats struct {
 	bytes                int
 	ups                  int
 	sgrLeak              bool
+	erasePending         int
 }
 
 func judgeHistory(k *capture, cs *Case) (st histStats, fail *failure) {
@@ -405,7 +406,8 @@ func judgeHistory(k *capture, cs *Case) (st histStats, fail *failure) {
 	st.bytes = live.bytes
 	if live.scr != nil {
 		st.ups = live.scr.Ups
-		st.sgrLeak = live.scr.SGRActive
+		st.erasePending = live.scr.ErasesAtPending
+		st.sgrLeak = live.scr.SGRActive && allBalanced(cs)
 	}
 	if f != nil {
 		return st, f
@@ -429,6 +431,22 @@ func judgeHistory(k *capture, cs *Case) (st histStats, fail *failure) {
 		return st, f
 	}
 	return st, nil
+}
+
+// allBalanced: every text of the history leaves the colour state reset.
+func allBalanced(cs *Case) bool {
+	for _, u := range cs.Ups {
+		i := strings.LastIndex(u.T, "\x1b[")
+		if i < 0 {
+			continue
+		}
+		rest := u.T[i+2:]
+		j := strings.IndexByte(rest, 'm')
+		if j < 0 || !(rest[:j] == "" || rest[:j] == "0") {
+			return false
+		}
+	}
+	return true
 }
 
 func nontrivial(cs *Case) bool {
@@ -472,6 +490,7 @@ func shrink(k *capture, cs *Case, class string) *Case {
 		}
 	}
 	// shorten texts
+	budget += 300
 	for i := range cur.Ups {
 		for budget > 0 {
 			r := []rune(cur.Ups[i].T)
@@ -497,10 +516,15 @@ func runHistory(c *run.Ctx, k *capture, cs *Case, fpPrefix string) bool {
 	c.Count("row_checks", st.rowChecks)
 	c.Count("cut_checks", st.cutChecks)
 	c.Count("cursor_up_sequences", int64(st.ups))
+	// not judged: a full-width line followed by ESC[0K; terminals that keep the cursor on the
+	// last column in the pending-wrap state (xterm) erase the last character there
+	c.Count("obs_updates_full_width_then_erase", int64(st.erasePending))
 	c.Max("max_history_len", int64(len(cs.Ups)))
 	c.Max("max_stream_bytes", int64(st.bytes))
 	if st.sgrLeak {
-		c.Count("obs_colour_still_active_after_close", 1)
+		// not judged (the statement is about text, not colour): every text ended with its
+		// colour reset, yet a colour is still active after Close because the cut dropped the reset
+		c.Count("obs_colour_left_active_by_cut", 1)
 	}
 	if cs.Trim {
 		c.Count("histories_trim_on", 1)
@@ -636,7 +660,7 @@ func dense(c *run.Ctx, k *capture) {
 }
 
 func random(c *run.Ctx, k *capture) {
-	N := c.N(24000, 400000)
+	N := c.N(24000, 600000)
 	for i := 0; i < N; i++ {
 		if !c.Mine(i) {
 			continue
